@@ -1171,3 +1171,122 @@ Proof.
   split; [eexists; split; vm_compute; reflexivity|].
   eexists. eexists. split; [vm_compute; reflexivity|]. split; [vm_compute; reflexivity|]. split; vm_compute; reflexivity.
 Qed.
+
+(* 25. PathSegmentsMut::push / extend, EXACTLY, and the class F-C06-7 (Proofs/C06_SegPush.v).
+   extend() skips a segment only when it is literally "." or ".." (seg_skipped); every other segment is handed to
+   parse_path in the PathSegmentSetter context, whose input drops TAB / LF / CR.  A segment whose TAB/LF/CR-free text
+   (strip_tnl) is "." or ".." is therefore read as a dot segment: push(".<TAB>.") on http://h/a/b POPS the segment "b"
+   (http://h/a/), push(".<LF>") appends an empty segment - while push("..") / push(".") are skipped as documented.
+   That class is known_c06_7 (computable); no "%2e" spelling is in it: '%' is in the PATH_SEGMENT sets, so it comes out
+   as "%25" (witness below).
+     session_text st P ops   the path text after the operations ops, computed on the path text P alone:
+       clear          -> the first byte of P ("/"; "" stays "")
+       pop_if_empty   -> P without its last byte when that is a '/' behind the first byte
+       pop            -> P up to its last '/' behind the first byte (up to the first byte when there is none)
+       push seg       -> push_text st P seg  (C06_push_text_unfold: P itself for "." / "..", otherwise
+                         P, a '/' unless P is exactly one byte long, and the percent-encoding (PATH_SEGMENT or
+                         SPECIAL_PATH_SEGMENT by scheme type st) of the UTF-8 bytes of seg without TAB/LF/CR)
+       extend segs    -> push after push
+   C06_frame_segments_exact: for a well-formed record that is not cannot-be-a-base, scheme type other than file, &str
+   arguments outside known_c06_7: the record a whole session returns is with_path u (session_text ...) - the very record
+   whose frame / invariant C06_frame_path (and _noauth, _marker) state, now with the path text explicit; the old path is
+   a prefix of the new one for push / extend (C06_push_keeps_prefix).  C06_7_class_exact: for one push of a segment that
+   extend does not skip, the verbatim text is appended IF AND ONLY IF the segment is outside known_c06_7.
+   Not covered: the file scheme (drive-letter rewriting "C|" -> "C:" and, with a TAB inside the segment, a '/' inserted
+   behind a drive letter: file:/// push("C:<TAB>x") gives file:///C:/x). *)
+From RU Require Import Proofs.C06_SegPush.
+
+Theorem C06_7_refuted :
+  wf_b w7_url = true /\ known_c06_7 [46; 9; 46] = true /\ known_c06_7 [46; 10] = true
+  /\ known_c06_7 [46; 46] = false /\ known_c06_7 [37; 50; 101; 9; 46] = false
+  /\ (forall dbg, path_segments_session dbg w7_url [PPush [46; 9; 46]] = Some (w7_popped, SOk))
+  /\ (forall dbg, path_segments_session dbg w7_url [PPush [46; 46]] = Some (w7_url, SOk))
+  /\ (forall dbg, path_segments_session dbg w7_url [PPush [46; 10]] = Some (with_path w7_url [47;97;47;98;47], SOk))
+  /\ (forall dbg, path_segments_session dbg w7_url [PPush [37; 50; 101; 9; 46]]
+                  = Some (with_path w7_url [47;97;47;98;47;37;50;53;50;101;46], SOk))
+  /\ path w7_popped = Some [47; 97; 47]
+  /\ w7_popped <> with_path w7_url (push_text (st_of w7_url) (path_text w7_url) [46; 9; 46]).
+Proof. exact c06_7_witness. Qed.
+Check C06_7_refuted :
+  wf_b w7_url = true /\ known_c06_7 [46; 9; 46] = true /\ known_c06_7 [46; 10] = true
+  /\ known_c06_7 [46; 46] = false /\ known_c06_7 [37; 50; 101; 9; 46] = false
+  /\ (forall dbg, path_segments_session dbg w7_url [PPush [46; 9; 46]] = Some (w7_popped, SOk))
+  /\ (forall dbg, path_segments_session dbg w7_url [PPush [46; 46]] = Some (w7_url, SOk))
+  /\ (forall dbg, path_segments_session dbg w7_url [PPush [46; 10]] = Some (with_path w7_url [47;97;47;98;47], SOk))
+  /\ (forall dbg, path_segments_session dbg w7_url [PPush [37; 50; 101; 9; 46]]
+                  = Some (with_path w7_url [47;97;47;98;47;37;50;53;50;101;46], SOk))
+  /\ path w7_popped = Some [47; 97; 47]
+  /\ w7_popped <> with_path w7_url (push_text (st_of w7_url) (path_text w7_url) [46; 9; 46]).
+Print Assumptions C06_7_refuted.
+
+(* the witness records are "http://h/a/b" and "http://h/a/" *)
+Example C06_7_witness_text : ser w7_url = B "http://h/a/b" /\ ser w7_popped = B "http://h/a/".
+Proof. split; vm_compute; reflexivity. Qed.
+
+Theorem C06_frame_segments_exact : forall dbg u ops u', wf_b u = true ->
+  byte_eqb (ser u) (scheme_end u + 1) 47 = true -> st_is_file (st_of u) = false ->
+  Forall psm_op_usv ops -> Forall psm_op_plain ops -> path_segments_session dbg u ops = Some (u', SOk) ->
+  path u = Some (path_text u) /\ u' = with_path u (session_text (st_of u) (path_text u) ops).
+Proof.
+  intros dbg u ops u' W Hsl Hnf Hu Hp H. split; [exact (path_text_is_path u W)|].
+  exact (path_segments_session_exact dbg u ops u' W Hsl Hnf Hu Hp H).
+Qed.
+Check C06_frame_segments_exact : forall dbg u ops u', wf_b u = true ->
+  byte_eqb (ser u) (scheme_end u + 1) 47 = true -> st_is_file (st_of u) = false ->
+  Forall psm_op_usv ops -> Forall psm_op_plain ops -> path_segments_session dbg u ops = Some (u', SOk) ->
+  path u = Some (path_text u) /\ u' = with_path u (session_text (st_of u) (path_text u) ops).
+Print Assumptions C06_frame_segments_exact.
+
+(* the premises are met: a session of push("x<TAB>y"), extend(["..", "c/%", ""]), pop, push("e-acute") on http://h/a/b *)
+Example C06_frame_segments_exact_inhabited :
+  wf_b w7_url = true /\ byte_eqb (ser w7_url) (scheme_end w7_url + 1) 47 = true /\ st_is_file (st_of w7_url) = false
+  /\ Forall psm_op_usv [PPush [120; 9; 121]; PExtend [[46; 46]; [99; 47; 37]; []]; PPop; PPush [233]]
+  /\ Forall psm_op_plain [PPush [120; 9; 121]; PExtend [[46; 46]; [99; 47; 37]; []]; PPop; PPush [233]]
+  /\ path_segments_session true w7_url [PPush [120; 9; 121]; PExtend [[46; 46]; [99; 47; 37]; []]; PPop; PPush [233]]
+     = Some (with_path w7_url [47;97;47;98;47;120;121;47;99;37;50;70;37;50;53;47;37;67;51;37;65;57], SOk)
+  /\ session_text (st_of w7_url) (path_text w7_url) [PPush [120; 9; 121]; PExtend [[46; 46]; [99; 47; 37]; []]; PPop; PPush [233]]
+     = [47;97;47;98;47;120;121;47;99;37;50;70;37;50;53;47;37;67;51;37;65;57].
+Proof. exact session_exact_example. Qed.
+
+Theorem C06_push_text_unfold : forall st P seg ss,
+  push_text st P seg
+  = (if list_eqb seg [46] || list_eqb seg [46; 46] then P
+     else (if (1 <? nlen P) || (nlen P =? 0) then P ++ [47] else P)
+          ++ encode (path_set CPathSegmentSetter st) (utf8_encode (filter not_tnl seg)))
+  /\ extend_text st P ss = fold_left (push_text st) ss P
+  /\ known_c06_7 seg = negb (list_eqb seg [46] || list_eqb seg [46; 46])
+                       && (list_eqb (filter not_tnl seg) [46] || list_eqb (filter not_tnl seg) [46; 46]).
+Proof. intros. repeat split; reflexivity. Qed.
+Check C06_push_text_unfold : forall st P seg ss,
+  push_text st P seg
+  = (if list_eqb seg [46] || list_eqb seg [46; 46] then P
+     else (if (1 <? nlen P) || (nlen P =? 0) then P ++ [47] else P)
+          ++ encode (path_set CPathSegmentSetter st) (utf8_encode (filter not_tnl seg)))
+  /\ extend_text st P ss = fold_left (push_text st) ss P
+  /\ known_c06_7 seg = negb (list_eqb seg [46] || list_eqb seg [46; 46])
+                       && (list_eqb (filter not_tnl seg) [46] || list_eqb (filter not_tnl seg) [46; 46]).
+Print Assumptions C06_push_text_unfold.
+
+Theorem C06_push_keeps_prefix : forall st P seg segs,
+  (exists t, push_text st P seg = P ++ t) /\ (exists t, extend_text st P segs = P ++ t).
+Proof. intros st P seg segs. split; [apply push_text_prefix | apply extend_text_prefix]. Qed.
+Check C06_push_keeps_prefix : forall st P seg segs,
+  (exists t, push_text st P seg = P ++ t) /\ (exists t, extend_text st P segs = P ++ t).
+Print Assumptions C06_push_keeps_prefix.
+
+(* s0 = the serialization in front of the path, P = the path text during the session *)
+Theorem C06_7_class_exact : forall dbg st s0 ps P seg s', nlen s0 = ps -> st_is_file st = false -> usv_list seg ->
+  psm_extend_loop dbg st ps (s0 ++ P) [seg] = Some s' ->
+  (s' = s0 ++ push_text st P seg <-> known_c06_7 seg = false).
+Proof. exact push_class_exact. Qed.
+Check C06_7_class_exact : forall dbg st s0 ps P seg s', nlen s0 = ps -> st_is_file st = false -> usv_list seg ->
+  psm_extend_loop dbg st ps (s0 ++ P) [seg] = Some s' ->
+  (s' = s0 ++ push_text st P seg <-> known_c06_7 seg = false).
+Print Assumptions C06_7_class_exact.
+
+(* both sides of the equivalence occur: on "http://h/a/b" (s0 = "http://h", P = "/a/b") *)
+Example C06_7_class_exact_inhabited :
+  psm_extend_loop true STSpecialNotFile 8 (B "http://h" ++ B "/a/b") [[46; 9; 46]] = Some (B "http://h/a/")
+  /\ psm_extend_loop true STSpecialNotFile 8 (B "http://h" ++ B "/a/b") [[120; 9; 46]] = Some (B "http://h/a/b/x.")
+  /\ push_text STSpecialNotFile (B "/a/b") [120; 9; 46] = B "/a/b/x.".
+Proof. repeat split; vm_compute; reflexivity. Qed.
